@@ -35,6 +35,14 @@ type daemon struct {
 	exited    int32
 	lcOff     int64 // outputLineCount: bytes of the events file counted so far
 	lcLines   int   // ... and the newlines among them
+	// outFifo: the events output is a named pipe read by the harness (so that it
+	// can be made to fail later by closing the reading end)
+	outFifo  bool
+	outFd    int
+	outMu    sync.Mutex
+	outData  []byte
+	outStop  int32
+	outEnded chan struct{}
 }
 
 type daemonOpts struct {
@@ -48,6 +56,8 @@ type daemonOpts struct {
 	// preexisting: what the events file already holds when the daemon starts
 	// (the output of an earlier run: the daemon is restarted on the same file)
 	preexisting []byte
+	// outFifo: events output is a FIFO in the daemon's scratch directory, read by the harness
+	outFifo bool
 }
 
 func startDaemon(o daemonOpts) (*daemon, error) {
@@ -63,7 +73,31 @@ func startDaemon(o daemonOpts) (*daemon, error) {
 	if d.auditPath == "" {
 		d.auditPath = mkFifo(dir, "audit-pipe")
 	}
-	if d.outPath == "" {
+	if o.outFifo {
+		d.outPath = mkFifo(dir, "events-fifo")
+		fd, err := syscall.Open(d.outPath, syscall.O_RDONLY|syscall.O_NONBLOCK|syscall.O_CLOEXEC, 0)
+		if err != nil {
+			return nil, err
+		}
+		d.outFifo, d.outFd, d.outEnded = true, fd, make(chan struct{})
+		go func() {
+			defer close(d.outEnded)
+			buf := make([]byte, 1<<16)
+			for atomic.LoadInt32(&d.outStop) == 0 {
+				n, err := syscall.Read(fd, buf)
+				if n > 0 {
+					d.outMu.Lock()
+					d.outData = append(d.outData, buf[:n]...)
+					d.outMu.Unlock()
+					continue
+				}
+				if err != nil && err != syscall.EAGAIN && err != syscall.EINTR {
+					return
+				}
+				time.Sleep(200 * time.Microsecond) // no writer yet, nothing to read, or EAGAIN
+			}
+		}()
+	} else if d.outPath == "" {
 		d.outPath = filepath.Join(dir, "events.log")
 		if err := os.WriteFile(d.outPath, o.preexisting, 0o644); err != nil {
 			return nil, err
@@ -216,13 +250,33 @@ func classifyDaemonDump(dump string) (bool, string) {
 
 // outputLines reads the complete lines of the events file.
 func (d *daemon) outputRaw() []byte {
+	if d.outFifo {
+		d.outMu.Lock()
+		defer d.outMu.Unlock()
+		return append([]byte{}, d.outData...)
+	}
 	b, _ := os.ReadFile(d.outPath)
 	return b
+}
+
+// breakOutput closes the reading end of the events FIFO: the daemon's next
+// event write fails with EPIPE.
+func (d *daemon) breakOutput() {
+	atomic.StoreInt32(&d.outStop, 1)
+	<-d.outEnded
+	syscall.Close(d.outFd)
 }
 
 // outputLineCount counts the lines of the events file incrementally (only what
 // was appended since the last call is read). Single caller.
 func (d *daemon) outputLineCount() int {
+	if d.outFifo {
+		d.outMu.Lock()
+		defer d.outMu.Unlock()
+		d.lcLines += bytes.Count(d.outData[d.lcOff:], []byte("\n"))
+		d.lcOff = int64(len(d.outData))
+		return d.lcLines
+	}
 	f, err := os.Open(d.outPath)
 	if err != nil {
 		return d.lcLines
